@@ -351,8 +351,8 @@ func (n *node[T]) checkAmbiguous(pattern string, hasNonString bool) (*node[T], b
 		}
 
 		segs, err := n.root.interceptors.Split(pattern)
-		if err != nil {
-			return nil, false, err
+		if err != nil { // 完整的路由项已经验证过语法，此处只是进入 /{ 之类的节点之后剩余的部分，不存在歧义。
+			continue
 		}
 		s0 := segs[0]
 
